@@ -800,6 +800,13 @@ class Interp:
                 fr[ptr[2]] = self._proj_store(fr.get(ptr[2], MOVED), ptr[3], v)
             return [st]
         if k == 'O':
+            if self.byvalue_maps(v):
+                try:
+                    old = self._proj_load(st, st.objs[ptr[1]], ptr[2]) if ptr[2] else st.objs[ptr[1]]
+                except Exception:
+                    old = None
+                if old is not None and old[0] == 'moved' and len(old) == 2:
+                    v = self._transplant(st, old[1], v)
             st.objs[ptr[1]] = self._proj_store(st.objs[ptr[1]], ptr[2], v)
             return [st]
         if k == 'len':
@@ -843,6 +850,35 @@ class Interp:
                 return self.slot_write(st, mid, idx, v[1], 'slot = MaybeUninit::new(..)')
             raise Unproven('store of %s into a slot' % v[0])
         raise Unproven('store to %r' % (ptr,))
+
+    def _transplant(self, st, old, new, depth=0):
+        """`*place = new container value` over a caller-owned container that was just dropped in place: the place
+        keeps its identity (the schemas speak about the receiver), the abstract state of the new value moves in"""
+        if not (isinstance(old, tuple) and isinstance(new, tuple) and old and new) or depth > 6:
+            return new
+        if old[0] == 'map' and new[0] == 'map' and old[1] != new[1]:
+            m1, m2 = st.maps.get(old[1]), st.maps.get(new[1])
+            if m1 is not None and m2 is not None and m1.dead and m1.borrowed and not m1.phantom \
+                    and not m2.dead and not m2.borrowed and not m2.phantom and m2.len0 is None:
+                for f in ('len', 'holes', 'extras', 'hole_rng', 'extra_rng', 'contents', 'examined', 'pending',
+                          'asked', 'asked_carry', 'owned_extras'):
+                    setattr(m1, f, getattr(m2, f))
+                st.zone.add_eq(m1.cap, m2.cap)
+                m1.dead = False
+                m1.exempt = False
+                m1.replaced = m2.replaced or new[1]
+                m2.dead = True
+                m2.holes = m2.extras = m2.contents = ()
+                m2.hole_rng = m2.extra_rng = (0, 0)
+                slots.aux_drop(st, lambda q: q in (('len', old[1]), ('len', new[1])))
+                st.log('replaced', old[1], new[1])
+                return old
+            return new
+        if old[0] == 'adt' and new[0] == 'adt' and old[1] == new[1] and old[2] == new[2] and len(old[3]) == len(new[3]):
+            return ('adt', new[1], new[2], tuple(self._transplant(st, a, b, depth + 1) for a, b in zip(old[3], new[3])))
+        if old[0] == 'tuple' and new[0] == 'tuple' and len(old[1]) == len(new[1]):
+            return ('tuple', tuple(self._transplant(st, a, b, depth + 1) for a, b in zip(old[1], new[1])))
+        return new
 
     def store_len(self, st, mid, new):
         ms = st.maps[mid]
